@@ -4,6 +4,8 @@ import warnings
 
 import numpy as np
 
+from .outcome import CaseTimeout
+
 G = 9.81
 
 
@@ -132,6 +134,8 @@ def run_wntr(wn, hw_approx='default', tol=None, convergence_error=False, keep=Fa
         warnings.simplefilter('always')
         try:
             res = sim.run_sim(solver_options=opts or None, HW_approx=hw_approx, convergence_error=convergence_error)
+        except CaseTimeout:
+            raise
         except Exception as e:   # caller decides what an exception means
             out.ok = False
             out.exception = e
